@@ -3,6 +3,7 @@ CONSTANTS
   Sizes = {0}
   MaxOps = 1
   MaxSets = 2
+  Limits = {1000000}
   Defects = {}
 SPECIFICATION TraceSpec
 POSTCONDITION Accepted
